@@ -205,6 +205,14 @@ std::vector<Op> entity_alphabet(int level) {
     add(1, "g1.addMultiTag(m1)", [=](File &f) { Group g = G(f, b1, "g1"); MultiTag a = M(f, b1, "m1"); need(!g.hasMultiTag(a)); g.addMultiTag(a); });
     add(2, "g1.dataArrays({a2,a1})", [=](File &f) { G(f, b1, "g1").dataArrays({A(f, b1, "a2"), A(f, b1, "a1")}); });
     add(2, "g1.tags({})", [=](File &f) { Group g = G(f, b1, "g1"); need(g.tagCount() > 0); g.tags(std::vector<Tag>{}); });
+    // ---- link attempts across blocks (the target lives in b2): refused by the library today; if a version accepts one, the result is
+    //      an ordinary state for every check that explores histories (ids distinct, persistence, deletion ...)
+    add(2, "t1.createFeature(b2.a1) [other block]", [=](File &f) { T(f, b1, "t1").createFeature(A(f, b2, "a1"), LinkType::Untagged); });
+    add(2, "t1.createFeature(id of b2.a1) [other block]", [=](File &f) { T(f, b1, "t1").createFeature(A(f, b2, "a1").id(), LinkType::Tagged); });
+    add(2, "t1.addReference(b2.a1) [other block]", [=](File &f) { T(f, b1, "t1").addReference(A(f, b2, "a1")); });
+    add(2, "m1.createFeature(b2.a1) [other block]", [=](File &f) { M(f, b1, "m1").createFeature(A(f, b2, "a1"), LinkType::Indexed); });
+    add(2, "g1.addDataArray(b2.a1) [other block]", [=](File &f) { G(f, b1, "g1").addDataArray(A(f, b2, "a1")); });
+    add(2, "t1.feature(0).data(b2.a1) [other block]", [=](File &f) { Tag t = T(f, b1, "t1"); need(t.featureCount() > 0); t.getFeature(0).data(A(f, b2, "a1")); });
     add(2, "g1.multiTags({m1})", [=](File &f) { Group g = G(f, b1, "g1"); g.multiTags(std::vector<MultiTag>{M(f, b1, "m1")}); });
     add(2, "g1.dataFrames({f1})", [=](File &f) { Group g = G(f, b1, "g1"); g.dataFrames(std::vector<DataFrame>{F(f, b1, "f1")}); });
     add(2, "g1.removeMultiTag(m1)", [=](File &f) { Group g = G(f, b1, "g1"); MultiTag a = M(f, b1, "m1"); need(g.hasMultiTag(a)); g.removeMultiTag(a); });
